@@ -1,6 +1,9 @@
 package main
 
-// C49 facts: which action commands the code accepts, and which the documentation lists.
+// C49 facts: which action commands the code accepts, and which the documentation lists.  Semantic rather than
+// syntactic: the command switch is found by following same-package calls from the entry function (ActionFileCheck /
+// Do), an arm may yield its parameter count by assignment or by `return n, ...`, counts may be named constants, merged or
+// reordered `case` lists give the same (sorted) output.
 //
 //	bfe_basic/action/action.go   ActionFileCheck: `switch *conf.Cmd { case A, B: paramsLenCheck = n ... default: error }`
 //	                              -> basicAccepted : (command string, arity; -1 = any)      (constants resolved)
@@ -14,61 +17,187 @@ package main
 import (
 	"fmt"
 	"go/ast"
+	"go/parser"
+	"go/token"
 	"io/ioutil"
+	"os"
 	"path/filepath"
+	"sort"
 	"strings"
 )
 
-func c49Consts(f *ast.File) map[string]string {
-	m := map[string]string{}
-	for _, d := range f.Decls {
-		gd, ok := d.(*ast.GenDecl)
-		if !ok {
+// c49Pkg: all non-test files of one package directory, with string / integer constants resolved.
+type c49Pkg struct {
+	funcs  map[string]*ast.FuncDecl
+	files  []*ast.File
+	strs   map[string]string
+	ints   map[string]int64
+	values map[string]ast.Expr // package-level var initialisers
+}
+
+func c49LoadPkg(repo, dir string) (*c49Pkg, error) {
+	p := &c49Pkg{funcs: map[string]*ast.FuncDecl{}, strs: map[string]string{}, ints: map[string]int64{}, values: map[string]ast.Expr{}}
+	ents, err := os.ReadDir(filepath.Join(repo, dir))
+	if err != nil {
+		return nil, err
+	}
+	fset := token.NewFileSet()
+	for _, e := range ents {
+		n := e.Name()
+		if e.IsDir() || !strings.HasSuffix(n, ".go") || strings.HasSuffix(n, "_test.go") || strings.HasPrefix(n, "zz_verif") {
 			continue
 		}
-		for _, s := range gd.Specs {
-			vs, ok := s.(*ast.ValueSpec)
-			if !ok {
-				continue
-			}
-			for i, n := range vs.Names {
-				if i < len(vs.Values) {
-					if v, ok := strLit(vs.Values[i]); ok {
-						m[n.Name] = v
+		f, err := parser.ParseFile(fset, filepath.Join(repo, dir, n), nil, 0)
+		if err != nil {
+			return nil, err
+		}
+		p.files = append(p.files, f)
+		for _, d := range f.Decls {
+			switch v := d.(type) {
+			case *ast.FuncDecl:
+				if v.Body != nil {
+					if _, dup := p.funcs[v.Name.Name]; !dup {
+						p.funcs[v.Name.Name] = v
+					}
+				}
+			case *ast.GenDecl:
+				for _, sp := range v.Specs {
+					vs, ok := sp.(*ast.ValueSpec)
+					if !ok {
+						continue
+					}
+					for i, nm := range vs.Names {
+						if i >= len(vs.Values) {
+							continue
+						}
+						if v.Tok == token.VAR {
+							p.values[nm.Name] = vs.Values[i]
+							continue
+						}
+						if sv, ok := strLit(vs.Values[i]); ok {
+							p.strs[nm.Name] = sv
+						} else if iv, ok := c49Int(vs.Values[i], nil); ok {
+							p.ints[nm.Name] = iv
+						}
 					}
 				}
 			}
 		}
 	}
-	return m
+	return p, nil
 }
 
-func c49Resolve(e ast.Expr, consts map[string]string) (string, bool) {
+func c49Int(e ast.Expr, consts map[string]int64) (int64, bool) {
+	switch v := e.(type) {
+	case *ast.ParenExpr:
+		return c49Int(v.X, consts)
+	case *ast.UnaryExpr:
+		if v.Op == token.SUB {
+			n, ok := c49Int(v.X, consts)
+			return -n, ok
+		}
+	case *ast.Ident:
+		n, ok := consts[v.Name]
+		return n, ok
+	}
+	return intLit(e)
+}
+
+// str resolves a string literal, a constant of this package, or a constant of package `other` written other.Name.
+func (p *c49Pkg) str(e ast.Expr, other *c49Pkg) (string, bool) {
 	if s, ok := strLit(e); ok {
 		return s, true
 	}
 	switch v := e.(type) {
+	case *ast.ParenExpr:
+		return p.str(v.X, other)
 	case *ast.Ident:
-		s, ok := consts[v.Name]
+		s, ok := p.strs[v.Name]
 		return s, ok
-	case *ast.SelectorExpr: // action.ActionXxx
-		s, ok := consts[v.Sel.Name]
-		return s, ok
+	case *ast.SelectorExpr:
+		if other != nil {
+			s, ok := other.strs[v.Sel.Name]
+			return s, ok
+		}
 	}
 	return "", false
 }
 
-// c49Switch finds the first `switch <tag>` in fn whose tag prints as tag.
-func c49Switch(fn *ast.FuncDecl, isTag func(ast.Expr) bool) *ast.SwitchStmt {
-	var sw *ast.SwitchStmt
+// switches returns every `switch` statement reachable from fn, following calls to functions of the same package
+// (depth <= 3, cycle safe).
+func (p *c49Pkg) switches(fn *ast.FuncDecl, depth int, seen map[string]bool) []*ast.SwitchStmt {
+	var out []*ast.SwitchStmt
 	ast.Inspect(fn.Body, func(n ast.Node) bool {
-		if s, ok := n.(*ast.SwitchStmt); ok && sw == nil && s.Tag != nil && isTag(s.Tag) {
-			sw = s
-			return false
+		switch v := n.(type) {
+		case *ast.SwitchStmt:
+			out = append(out, v)
+		case *ast.CallExpr:
+			var name string
+			switch f := v.Fun.(type) {
+			case *ast.Ident:
+				name = f.Name
+			case *ast.SelectorExpr:
+				if x, ok := f.X.(*ast.Ident); ok && x.Obj != nil {
+					name = f.Sel.Name
+				}
+			}
+			if fd := p.funcs[name]; fd != nil && depth < 3 && !seen[name] {
+				seen[name] = true
+				out = append(out, p.switches(fd, depth+1, seen)...)
+				delete(seen, name)
+			}
 		}
 		return true
 	})
-	return sw
+	return out
+}
+
+// cmdSwitch picks, among the switches reachable from fn, the one with the most case labels that all resolve to
+// strings: the command switch.  Returned: per label the string and the case clause it belongs to.
+func (p *c49Pkg) cmdSwitch(fn *ast.FuncDecl, other *c49Pkg) (labels []string, clauses []*ast.CaseClause) {
+	for _, sw := range p.switches(fn, 0, map[string]bool{fn.Name.Name: true}) {
+		var ls []string
+		var cs []*ast.CaseClause
+		ok := true
+		for _, c := range sw.Body.List {
+			cc := c.(*ast.CaseClause)
+			for _, e := range cc.List {
+				s, isStr := p.str(e, other)
+				if !isStr {
+					ok = false
+				}
+				ls = append(ls, s)
+				cs = append(cs, cc)
+			}
+		}
+		if ok && len(ls) > len(labels) {
+			labels, clauses = ls, cs
+		}
+	}
+	return
+}
+
+// arity: the number a command-switch arm yields: `<local> = n` or `return n[, ...]` (n literal, -literal or constant).
+func (p *c49Pkg) arity(cc *ast.CaseClause) (int64, bool) {
+	for _, st := range cc.Body {
+		switch s := st.(type) {
+		case *ast.AssignStmt:
+			if len(s.Lhs) == 1 && len(s.Rhs) == 1 {
+				if _, ok := s.Lhs[0].(*ast.Ident); ok {
+					if n, ok := c49Int(s.Rhs[0], p.ints); ok {
+						return n, true
+					}
+				}
+			}
+		case *ast.ReturnStmt:
+			if len(s.Results) >= 1 {
+				if n, ok := c49Int(s.Results[0], p.ints); ok {
+					return n, true
+				}
+			}
+		}
+	}
+	return 0, false
 }
 
 func c49DocActions(repo, rel string) ([]string, error) {
@@ -110,161 +239,112 @@ func c49StrList(xs []string) string {
 
 func init() {
 	register("C49", func(repo string) (string, error) {
-		_, af, err := parseFile(repo, "bfe_basic/action/action.go")
+		act, err := c49LoadPkg(repo, "bfe_basic/action")
 		if err != nil {
 			return "", err
 		}
-		consts := c49Consts(af)
-		// ActionFileCheck
-		fc := findFunc(af, "", "ActionFileCheck")
+		// ActionFileCheck: command -> arity (the switch may live in a helper; arms may be merged or reordered)
+		fc := act.funcs["ActionFileCheck"]
 		if fc == nil {
 			return "", fmt.Errorf("action.ActionFileCheck not found")
 		}
-		isStarCmd := func(e ast.Expr) bool {
-			st, ok := e.(*ast.StarExpr)
-			if !ok {
-				return false
-			}
-			se, ok := st.X.(*ast.SelectorExpr)
-			return ok && se.Sel.Name == "Cmd"
-		}
-		sw := c49Switch(fc, isStarCmd)
-		if sw == nil {
-			return "", fmt.Errorf("`switch *conf.Cmd` not found in ActionFileCheck")
-		}
+		labels, clauses := act.cmdSwitch(fc, nil)
 		var accepted []string
-		hasDefaultErr := false
-		for _, c := range sw.Body.List {
-			cc := c.(*ast.CaseClause)
-			if cc.List == nil {
-				if len(cc.Body) == 1 {
-					if _, ok := cc.Body[0].(*ast.ReturnStmt); ok {
-						hasDefaultErr = true
+		for i, l := range labels {
+			n, ok := act.arity(clauses[i])
+			if !ok {
+				return "", fmt.Errorf("ActionFileCheck: the arm of %s yields no parameter count", l)
+			}
+			accepted = append(accepted, fmt.Sprintf("(%s, (%d : Int))", leanStr(l), n))
+		}
+		if len(labels) == 0 {
+			// the table as a package-level map literal command -> count
+			for _, v := range act.values {
+				cl, ok := v.(*ast.CompositeLit)
+				if !ok || len(cl.Elts) == 0 {
+					continue
+				}
+				var rows []string
+				for _, el := range cl.Elts {
+					kv, ok := el.(*ast.KeyValueExpr)
+					if !ok {
+						rows = nil
+						break
 					}
+					k, ok1 := act.str(kv.Key, nil)
+					n, ok2 := c49Int(kv.Value, act.ints)
+					if !ok1 || !ok2 {
+						rows = nil
+						break
+					}
+					rows = append(rows, fmt.Sprintf("(%s, (%d : Int))", leanStr(k), n))
 				}
-				continue
-			}
-			if len(cc.Body) != 1 {
-				return "", fmt.Errorf("ActionFileCheck: a case arm is not a single `paramsLenCheck = n`")
-			}
-			as, ok := cc.Body[0].(*ast.AssignStmt)
-			if !ok || len(as.Lhs) != 1 || len(as.Rhs) != 1 {
-				return "", fmt.Errorf("ActionFileCheck: a case arm is not `paramsLenCheck = n`")
-			}
-			if id, ok := as.Lhs[0].(*ast.Ident); !ok || id.Name != "paramsLenCheck" {
-				return "", fmt.Errorf("ActionFileCheck: a case arm assigns something else than paramsLenCheck")
-			}
-			var n int64
-			if u, ok := as.Rhs[0].(*ast.UnaryExpr); ok {
-				v, ok2 := intLit(u.X)
-				if !ok2 {
-					return "", fmt.Errorf("ActionFileCheck: arity is not an integer literal")
+				if len(rows) > len(accepted) {
+					accepted = rows
 				}
-				n = -v
-			} else {
-				v, ok2 := intLit(as.Rhs[0])
-				if !ok2 {
-					return "", fmt.Errorf("ActionFileCheck: arity is not an integer literal")
-				}
-				n = v
-			}
-			for _, e := range cc.List {
-				s, ok := c49Resolve(e, consts)
-				if !ok {
-					return "", fmt.Errorf("ActionFileCheck: case label is not a string constant")
-				}
-				accepted = append(accepted, fmt.Sprintf("(%s, (%d : Int))", leanStr(s), n))
 			}
 		}
-		if !hasDefaultErr {
-			return "", fmt.Errorf("ActionFileCheck: `default: return error` is gone")
+		if len(accepted) == 0 {
+			return "", fmt.Errorf("no command switch / table reachable from action.ActionFileCheck")
 		}
+		sort.Strings(accepted)
 		// Do
-		fd := findFunc(af, "Action", "Do")
+		fd := act.funcs["Do"]
 		if fd == nil {
 			return "", fmt.Errorf("Action.Do not found")
 		}
-		sd := c49Switch(fd, func(e ast.Expr) bool {
-			se, ok := e.(*ast.SelectorExpr)
-			return ok && se.Sel.Name == "Cmd"
-		})
-		if sd == nil {
-			return "", fmt.Errorf("`switch ac.Cmd` not found in Action.Do")
+		do, _ := act.cmdSwitch(fd, nil)
+		if len(do) == 0 {
+			return "", fmt.Errorf("no command switch reachable from Action.Do")
 		}
-		var do []string
-		for _, c := range sd.Body.List {
-			for _, e := range c.(*ast.CaseClause).List {
-				s, ok := c49Resolve(e, consts)
-				if !ok {
-					return "", fmt.Errorf("Action.Do: case label is not a string constant")
-				}
-				do = append(do, s)
-			}
-		}
-		// header prefix
-		hp, ok := consts["HeaderPrefix"]
+		sort.Strings(do)
+		hp, ok := act.strs["HeaderPrefix"]
 		if !ok {
 			return "", fmt.Errorf("HeaderPrefix constant not found")
 		}
-		// mod_rewrite allowActions
-		_, rf, err := parseFile(repo, "bfe_modules/mod_rewrite/action.go")
+		// mod_rewrite allowActions (map / slice literal with action constants as keys or elements)
+		rw, err := c49LoadPkg(repo, "bfe_modules/mod_rewrite")
 		if err != nil {
 			return "", err
 		}
-		al, ok := findValue(rf, "allowActions").(*ast.CompositeLit)
+		al, ok := rw.values["allowActions"].(*ast.CompositeLit)
 		if !ok {
 			return "", fmt.Errorf("mod_rewrite.allowActions is not a composite literal")
 		}
 		var allowed []string
 		for _, el := range al.Elts {
-			kv, ok := el.(*ast.KeyValueExpr)
-			if !ok {
-				return "", fmt.Errorf("allowActions element is not key: value")
+			k := el
+			if kv, ok := el.(*ast.KeyValueExpr); ok {
+				k = kv.Key
 			}
-			s, ok := c49Resolve(kv.Key, consts)
+			s, ok := rw.str(k, act)
 			if !ok {
-				return "", fmt.Errorf("allowActions key is not an action constant")
+				return "", fmt.Errorf("allowActions entry is not an action constant")
 			}
 			allowed = append(allowed, s)
 		}
-		// mod_header / mod_redirect
-		labels := func(rel string) ([]string, error) {
-			_, f, err := parseFile(repo, rel)
+		sort.Strings(allowed)
+		labelsOf := func(dir string) ([]string, error) {
+			p, err := c49LoadPkg(repo, dir)
 			if err != nil {
 				return nil, err
 			}
-			lc := c49Consts(f)
-			fn := findFunc(f, "", "ActionFileCheck")
+			fn := p.funcs["ActionFileCheck"]
 			if fn == nil {
-				return nil, fmt.Errorf("%s: ActionFileCheck not found", rel)
+				return nil, fmt.Errorf("%s: ActionFileCheck not found", dir)
 			}
-			s := c49Switch(fn, isStarCmd)
-			if s == nil {
-				return nil, fmt.Errorf("%s: `switch *conf.Cmd` not found", rel)
+			ls, _ := p.cmdSwitch(fn, act)
+			if len(ls) == 0 {
+				return nil, fmt.Errorf("%s: no command switch reachable from ActionFileCheck", dir)
 			}
-			var out []string
-			for _, c := range s.Body.List {
-				for _, e := range c.(*ast.CaseClause).List {
-					v, ok := c49Resolve(e, lc)
-					if !ok {
-						// constants may live in another file of the package (cookie actions)
-						if id, ok2 := e.(*ast.Ident); ok2 {
-							v, ok = "const:"+id.Name, true
-						}
-					}
-					if !ok {
-						return nil, fmt.Errorf("%s: case label is not a string", rel)
-					}
-					out = append(out, v)
-				}
-			}
-			return out, nil
+			sort.Strings(ls)
+			return ls, nil
 		}
-		hdr, err := labels("bfe_modules/mod_header/action.go")
+		hdr, err := labelsOf("bfe_modules/mod_header")
 		if err != nil {
 			return "", err
 		}
-		red, err := labels("bfe_modules/mod_redirect/action.go")
+		red, err := labelsOf("bfe_modules/mod_redirect")
 		if err != nil {
 			return "", err
 		}
@@ -281,13 +361,13 @@ func init() {
 			return "", err
 		}
 		var b strings.Builder
-		b.WriteString(header("C49", "bfe_basic/action/action.go", "bfe_modules/mod_{rewrite,header,redirect}/action.go", "docs/en_us/modules/mod_{rewrite,header,redirect}/*.md"))
-		fmt.Fprintf(&b, "/-- arms of `switch *conf.Cmd` in action.ActionFileCheck: (command, number of params; -1 = any); everything else is `invalid cmd` -/\ndef basicAccepted : List (String × Int) := [\n  %s\n]\n\n", strings.Join(accepted, ",\n  "))
-		fmt.Fprintf(&b, "/-- case labels of `switch ac.Cmd` in Action.Do -/\ndef basicDo : List String := %s\n\n", c49StrList(do))
+		b.WriteString(header("C49", "bfe_basic/action/*.go", "bfe_modules/mod_{rewrite,header,redirect}/*.go", "docs/en_us/modules/mod_{rewrite,header,redirect}/*.md"))
+		fmt.Fprintf(&b, "/-- the command switch reachable from action.ActionFileCheck, sorted: (command, number of params; -1 = any); everything else is `invalid cmd` -/\ndef basicAccepted : List (String × Int) := [\n  %s\n]\n\n", strings.Join(accepted, ",\n  "))
+		fmt.Fprintf(&b, "/-- commands of the switch reachable from Action.Do, sorted -/\ndef basicDo : List String := %s\n\n", c49StrList(do))
 		fmt.Fprintf(&b, "/-- action.HeaderPrefix -/\ndef headerPrefix : String := %s\n\n", leanStr(hp))
-		fmt.Fprintf(&b, "/-- keys of mod_rewrite.allowActions -/\ndef rewriteAllowed : List String := %s\n\n", c49StrList(allowed))
-		fmt.Fprintf(&b, "/-- case labels of mod_header.ActionFileCheck -/\ndef headerAccepted : List String := %s\n\n", c49StrList(hdr))
-		fmt.Fprintf(&b, "/-- case labels of mod_redirect.ActionFileCheck -/\ndef redirectAccepted : List String := %s\n\n", c49StrList(red))
+		fmt.Fprintf(&b, "/-- entries of mod_rewrite.allowActions, sorted -/\ndef rewriteAllowed : List String := %s\n\n", c49StrList(allowed))
+		fmt.Fprintf(&b, "/-- commands of mod_header.ActionFileCheck, sorted -/\ndef headerAccepted : List String := %s\n\n", c49StrList(hdr))
+		fmt.Fprintf(&b, "/-- commands of mod_redirect.ActionFileCheck, sorted -/\ndef redirectAccepted : List String := %s\n\n", c49StrList(red))
 		fmt.Fprintf(&b, "/-- docs/en_us/modules/mod_rewrite/mod_rewrite.md, table `### Actions` -/\ndef rewriteDocumented : List String := %s\n\n", c49StrList(dRw))
 		fmt.Fprintf(&b, "/-- docs/en_us/modules/mod_header/mod_header.md, table `### Actions` -/\ndef headerDocumented : List String := %s\n\n", c49StrList(dHd))
 		fmt.Fprintf(&b, "/-- docs/en_us/modules/mod_redirect/mod_redirect.md, table `### Actions` -/\ndef redirectDocumented : List String := %s\n", c49StrList(dRd))
